@@ -88,6 +88,10 @@ def facts_dir(config, sha=None):
     d = os.path.join(WORK, "facts", config, sha)
     want = ["embedded_graphics.json", "embedded_graphics_core.json"]
     if all(os.path.exists(os.path.join(d, w)) for w in want):
+        try:
+            os.utime(d)  # least-recently-used pruning
+        except OSError:
+            pass
         return d
     with open(os.path.join(WORK, "facts.lock"), "w") as lk:
         fcntl.flock(lk, fcntl.LOCK_EX)
